@@ -28,7 +28,7 @@ use crate::member::Member;
 use crate::message::{SpaceMembershipMessage, SpacesArgs, SpacesMessage};
 use crate::space::{Space, SpaceError, SpacesState};
 use crate::store::SpacesStoreState;
-use crate::types::{AuthGroupState, AuthResolver};
+use crate::types::{AuthGroupAction, AuthGroupState, AuthResolver};
 use crate::{ActorId, Config, Credentials, GroupId, SpaceId};
 
 /// Identifier used to store groups state into database.
@@ -233,6 +233,17 @@ where
     where
         M: Provenance<VerifyingKey> + Digest<Hash> + Borrow<SpacesArgs<C>>,
     {
+        // Promoting or demoting members is not supported yet, neither for groups nor for the
+        // encryption context of spaces. Remote peers can still send these actions, so they are
+        // rejected here, before they can become part of the shared auth state.
+        if let SpacesArgs::Auth {
+            group_action: AuthGroupAction::Promote { .. } | AuthGroupAction::Demote { .. },
+            ..
+        } = message.borrow()
+        {
+            return Err(ManagerError::UnsupportedAction(message.hash()));
+        }
+
         // Route message to the regarding member-, group- or space processor.
         let result = match &message.borrow() {
             // Received key bundle from a member.
@@ -513,6 +524,14 @@ where
             }
         };
 
+        // A space can't apply promotions or demotions yet, don't accept pointers at them.
+        if matches!(
+            auth_message.action(),
+            AuthGroupAction::Promote { .. } | AuthGroupAction::Demote { .. }
+        ) {
+            return Err(ManagerError::UnsupportedAction(message.auth_message_id));
+        }
+
         let space = match self.space(space_id).await? {
             Some(space) => space,
             None => {
@@ -742,6 +761,9 @@ where
 
     #[error("unexpected message variant, expected auth {0}")]
     IncorrectMessageVariant(Hash),
+
+    #[error("auth message {0} contains a promote or demote action which is not supported yet")]
+    UnsupportedAction(Hash),
 
     #[error(transparent)]
     Rng(#[from] RngError),
